@@ -20,7 +20,8 @@ RULE = ('operand pairs of normal single-precision encodings: every exponent gap 
         'operands, random pairs; integers 0, +-1, +-2**k, +-(2**k +- 1), INT_MIN, INT_MAX, 2**24 +- 1, random of every bit length; '
         'float->int operands with exponent fields 100..165 x mantissa boundaries, exact odd/even integers, k+0.5, +-2**31 neighbours. '
         'evaluations = block outputs judged.  Non-trivial: operand pair with exponent gap >= 1 or opposite signs; integer with >= 25 '
-        'significant bits; float->int operand with |x| >= 1.  Distinct by content (a, b | integer | pattern)')
+        'significant bits; float->int operand with |x| >= 1.  Distinct by content (a, b | integer | pattern); in the thorough tier only the cases whose content '
+        'hash is 0 mod 4 are registered, so distinct_nontrivial is a lower bound there (keeps the merged set small)')
 SHARDS = {'quick': 1, 'thorough': 16}
 TIMEOUT = {'quick': 600, 'thorough': 3000}
 MIN_NONTRIVIAL = {'quick': 10000, 'thorough': 200000}
@@ -379,7 +380,7 @@ def pair_cases(tier, seed, shard):
             ms = list(MANTS) + [rm()]
             for ma in ms:
                 for mb in list(MANTS) + [rm()]:
-                    for sa, sb in (sign_sets[(gap + n) & 1] if quick else sign_sets[0] + sign_sets[1]):
+                    for sa, sb in sign_sets[0] + sign_sets[1]:
                         if mine():
                             yield enc(sa, ea, ma), enc(sb, eb, mb), 'dense_gap'
     # B. every gap 41..253
@@ -426,11 +427,11 @@ def pair_cases(tier, seed, shard):
                 yield enc(rnd.getrandbits(1), ea, rnd.choice(sq + (rm(),))), enc(rnd.getrandbits(1), eb, rnd.choice(sq + (rm(),))), 'product_edge'
     # F. random: small gaps with random mantissas, then fully random normal operands
     # (the random generator is salted with the shard, so every shard draws its own share directly)
-    for _ in range(4000 if quick else 640000 // nsh):
+    for _ in range(8000 if quick else 640000 // nsh):
         ea = rnd.randint(1, 254)
         eb = min(254, max(1, ea + rnd.randint(-27, 27)))
         yield enc(rnd.getrandbits(1), ea, rm()), enc(rnd.getrandbits(1), eb, rm()), 'random_small_gap'
-    for _ in range(4000 if quick else 480000 // nsh):
+    for _ in range(8000 if quick else 480000 // nsh):
         yield enc(rnd.getrandbits(1), rnd.randint(1, 254), rm()), enc(rnd.getrandbits(1), rnd.randint(1, 254), rm()), 'random'
 
 
@@ -526,6 +527,7 @@ class Stats(dict):
         return 0
 
 
+NT_SUBSAMPLE = 4     # thorough tier: only cases with content hash = 0 mod 4 are registered as distinct non-trivial (lower bound)
 PER_MECHANISM = 3
 
 
@@ -550,6 +552,10 @@ def run_check(run, tier, seed, shard):
     run.assume('InttoFP_SP: value = the integer truncated toward zero to 24 significant bits (compared as a rational, so +0 and -0 words '
                'both stand for 0), p_lost <=> a non-zero bit was discarded')
     R = rig()
+
+    def nt(h):
+        if tier == 'quick' or h % NT_SUBSAMPLE == 0:
+            run.nt(h)
     stats = Stats()
     gaps = Stats()
     classes = Stats()
@@ -584,19 +590,19 @@ def run_check(run, tier, seed, shard):
             if viols:
                 report(run, case, viols)
             if abs(i).bit_length() >= 25:
-                run.nt(hash(('i', i)))
+                nt(hash((1, i)))
             if ((f >> 23) & 255) >= 127:
-                run.nt(hash(('f', f)))
+                nt(hash((2, f)))
         if outs:
             viols = judge_commutative(a, b, outs[0], outs[1], stats)
             if viols:
                 report(run, dict(kind='pair', a=hex(a), b=hex(b)), viols)
         if gap >= 1 or (a >> 31) != (b >> 31):
-            run.nt(hash(('p', a, b)))
-            run.nt(hash(('p', b, a)))
+            nt(hash((3, a, b)))
+            nt(hash((3, b, a)))
         if npairs % 2503 == 1:
-            run.sample(dict(kind='pair', cls=cls, a=hex(a), b=hex(b), exponent_gap=gap,
-                            observed={k: (hex(v) if isinstance(v, int) and v > 9 else v) for k, v in (outs[0] if outs else {}).items()}))
+            run.sample(dict(kind='step', pair_class=cls, a=hex(b), b=hex(a), exponent_gap=gap, ia=i, fa=hex(f), note='second step of the pair (operands swapped)',
+                            observed={k: (hex(v) if isinstance(v, int) and v > 9 else v) for k, v in (outs[1] if outs else {}).items()}))
     run.extra['blocks_in_one_system'] = ['FPAdder_SP', 'FPMult_SP', 'FPComparator_SP', 'FPComparator_SP(absolute)', 'InttoFP_SP', 'FPtoInt_SP']
     run.extra['leaves_per_propagate'] = '%d leaf blocks evaluated by every propagateAll()' % R.leaves
     run.extra['operand_pairs'] = npairs
